@@ -76,9 +76,27 @@ def lean_sources():
     return sorted(res)
 
 
-def grep_forbidden():
+def import_closure(roots):
+    """Lean source files of this project transitively imported by the given module names
+    (`PrecondVerif.*` / `Main.*`); Mathlib and core imports are outside the project and not followed."""
+    seen, todo, files = set(), list(roots), []
+    while todo:
+        m = todo.pop()
+        if m in seen:
+            continue
+        seen.add(m)
+        p = os.path.join(LEAN_DIR, *m.split(".")) + ".lean"
+        if not os.path.exists(p):
+            continue
+        files.append(p)
+        for mm in re.finditer(r"^\s*(?:public\s+)?import\s+((?:PrecondVerif|Main)\.[\w.]+)", _strip_comments(open(p).read()), re.M):
+            todo.append(mm.group(1))
+    return sorted(files)
+
+
+def grep_forbidden(files=None):
     hits = []
-    for p in lean_sources():
+    for p in (files if files is not None else lean_sources()):
         body = _strip_comments(open(p).read())
         for ln, line in enumerate(body.split("\n"), 1):
             for pat in FORBIDDEN:
@@ -199,7 +217,8 @@ class Check:
             else:
                 ok += 1
                 thms.append({"theorem": n, "axioms": sorted(ax)})
-        hits = grep_forbidden()
+        # every project file the property's theorems and its driver depend on (transitive imports)
+        hits = grep_forbidden(import_closure(list(modules) + [f"Main.{self.pid}"]))
         if hits:
             self.stage_failures.append({"stage": "lean", "name": "forbidden-token grep", "detail": "; ".join(hits[:10])})
         self.cov["obligations"] = len(names)
